@@ -3415,7 +3415,7 @@ class PyCdlib:
 
             # This goes after the hard link so we only track the new Inode if
             # everything above succeeds
-            if ino is not None:
+            if ino is not None and (iso_path or joliet_path):
                 self.inodes.append(ino)
 
             left -= thislen
@@ -3428,6 +3428,10 @@ class PyCdlib:
                                                              fmode,
                                                              eltorito_catalog,
                                                              udf_new_path=udf_path)
+            if ino is not None and not iso_path and not joliet_path:
+                # The Inode of a UDF-only file is tracked once its only link
+                # has succeeded.
+                self.inodes.append(ino)
 
         return num_bytes_to_add
 
